@@ -646,12 +646,18 @@ def rule_r6(chk, model):
             elif isinstance(st, ast.Return):
                 r = alg.ToIR(env=dict(env))(st.value)
         p, n, ip, in_, i = (sym(x) for x in ps)
-        at_prev = alg.subst(r, {ps[4]: ip})
-        at_next = alg.subst(r, {ps[4]: in_})
         d2 = alg.diff(alg.diff(r, ps[4]), ps[4])
-        chk.ob("C10-R6", "series._filling._interpolation_linear[at previous]", alg.equal(at_prev, p), f"value at previous index = {alg.show_rat(alg.nf(at_prev))}", fm.loc(f))
-        chk.ob("C10-R6", "series._filling._interpolation_linear[at next]", alg.equal(at_next, n), f"value at next index = {alg.show_rat(alg.nf(at_next))}", fm.loc(f))
         chk.ob("C10-R6", "series._filling._interpolation_linear[affine]", alg.is_zero(d2), "second derivative in the index is 0", fm.loc(f))
+        for label, point, want in (("at previous", ip, p), ("at next", in_, n)):
+            try:
+                val = alg.subst(r, {ps[4]: point})
+                chk.ob("C10-R6", f"series._filling._interpolation_linear[{label}]", alg.equal(val, want),
+                       f"value {label} index = {alg.show_rat(alg.nf(val))}", fm.loc(f))
+            except Undecided as e:
+                if "division by zero" in str(e):
+                    chk.bad("C10-R6", f"series._filling._interpolation_linear[{label}]", f"formula is undefined {label} index ({e})", fm.loc(f))
+                else:
+                    chk.undecided("C10-R6", f"series._filling._interpolation_linear[{label}]", str(e), fm.loc(f))
     except (Undecided, UnboundLocalError) as e:
         chk.undecided("C10-R6", "series._filling._interpolation_linear", str(e), fm.loc(f))
     g = fm.func("_interpolation_log_linear")
